@@ -46,9 +46,16 @@ func toNotification(host *Host) Notification {
 }
 
 func (h *Session) sendNotification(notification Notification) {
-	if len(h.C) < cap(h.C) {
-		h.C <- notification
+	// Close closes the channel: do not send after that
+	h.closeMutex.RLock()
+	defer h.closeMutex.RUnlock()
+	if h.closed {
 		return
+	}
+	select { // never block while holding the lock
+	case h.C <- notification:
+		return
+	default:
 	}
 	Logger.Msg("notification channel is full").Int("len", len(h.C)).Struct(notification).Write()
 }
